@@ -120,8 +120,10 @@ def lexer_lemma(run, crate, ntok):
 
 
 def build(run):
-    run.outside += ["build_intent / build_function / find_arg and the recovery (remove attribute, re-match, restore): DOM + rule interpreter",
+    run.outside += ["build_intent / build_function and the recovery (remove attribute, re-match, restore): DOM + rule interpreter",
                     "'speech as if the attribute were ignored' (rule output)"]
+    crate_c, lemma_c = arg_lemma(run)
+    run.kani(crate_c, [lemma_c], timeout=600)
     ntok = 3 if run.tier == "quick" else 4
     crate, pats = lexer_crate(run, "c19lex", ntok)
     lem = lexer_lemma(run, crate, ntok)
@@ -194,3 +196,87 @@ def build(run):
                 run.inconclusive_("TV.dfa_mock." + n.lower(), "generated DFA disagrees with the real regex crate on %r" % (bad[:3],))
             else:
                 run.holds("TV.dfa_mock." + n.lower(), note="(4000 random strings: generated DFA == real regex crate)")
+
+
+# ======================================================================================================================
+# K-C19-c: find_arg -- a reference $name resolves to the first descendant with arg=name that is VISIBLE from the element
+#          carrying the intent: the search does not look inside elements that have another arg or their own intent
+ARG_SHIM = r"""
+pub type Result<T> = core::result::Result<T, Error>;
+#[derive(Debug)] pub struct Error;
+const INTENT_ATTR: &str = "intent";
+pub const NN: usize = 6;
+/// fixed tree:   0 ( 1 ( 3  4 )  2 ( 5 ) )      arg / intent of every node symbolic; names are "a" / "b"
+static mut ARG: [u8; NN] = [0; NN];            // 0 = no arg attribute, 1 = arg="a", 2 = arg="b"
+static mut HAS_INTENT: [bool; NN] = [false; NN];
+const KIDS: [&[u8]; NN] = [&[1, 2], &[3, 4], &[5], &[], &[], &[]];
+#[derive(Clone, Copy, PartialEq, Debug)] pub struct Element<'a> { id: u8, p: core::marker::PhantomData<&'a ()> }
+#[derive(Clone, Copy)] pub struct ChildOfElement<'a>(Element<'a>);
+fn el<'a>(id: u8) -> Element<'a> { Element { id, p: core::marker::PhantomData } }
+impl<'a> Element<'a> {
+    fn attribute_value(&self, nm: &str) -> Option<&'static str> {
+        if nm.len() == 3 { match unsafe { ARG[self.id as usize] } { 1 => Some("a"), 2 => Some("b"), _ => None } }
+        else if unsafe { HAS_INTENT[self.id as usize] } { Some("f") } else { None }
+    }
+    fn children(&self) -> Kids<'a> { Kids { k: KIDS[self.id as usize], i: 0, p: core::marker::PhantomData } }
+}
+pub struct Kids<'a> { k: &'static [u8], i: usize, p: core::marker::PhantomData<&'a ()> }
+impl<'a> Iterator for Kids<'a> { type Item = ChildOfElement<'a>; fn next(&mut self) -> Option<ChildOfElement<'a>> { if self.i < self.k.len() { self.i += 1; Some(ChildOfElement(el(self.k[self.i - 1]))) } else { None } } }
+fn as_element<'a>(c: ChildOfElement<'a>) -> Element<'a> { c.0 }
+fn is_leaf(e: Element) -> bool { KIDS[e.id as usize].is_empty() }
+pub struct LexState;
+impl LexState { fn init(_s: &str) -> Result<LexState> { Ok(LexState) } }
+pub struct SpeechRulesWithContext<'c, 's, 'm> { p: core::marker::PhantomData<(&'c (), &'s (), &'m ())> }
+impl<'c, 's, 'm> SpeechRulesWithContext<'c, 's, 'm> { fn match_pattern<T: From<Element<'m>>>(&mut self, e: Element<'c>) -> Result<T> { Ok(T::from(el(e.id))) } }
+fn build_intent<'c, 's, 'm>(_r: &mut SpeechRulesWithContext<'c, 's, 'm>, _l: &mut LexState, e: Element<'c>) -> Result<Element<'m>> { Ok(el(e.id)) }
+"""
+
+ARG_HARNESS = r"""
+/// reference semantics: is node `t` visible from the root (every node strictly between them has neither arg nor intent)?
+fn visible(t: usize) -> bool {
+    const PARENT: [usize; NN] = [0, 0, 0, 1, 1, 2];
+    let mut p = PARENT[t];
+    let mut k = 0;
+    while p != 0 && k < 3 { if unsafe { ARG[p] != 0 || HAS_INTENT[p] } { return false; } p = PARENT[p]; k += 1; }
+    true
+}
+HARNESS(find_arg_respects_reference_scopes, 8) {
+    let mut i = 0;
+    while i < NN { unsafe { ARG[i] = sym::below(3) as u8; HAS_INTENT[i] = sym::bool(); } i += 1; }
+    unsafe { HAS_INTENT[0] = true; }                        // the element whose intent holds the reference $a
+    let mut r = SpeechRulesWithContext { p: core::marker::PhantomData };
+    let found = find_arg(&mut r, "a", el(0), true, false).unwrap();
+    // expected: the first node in document order (1 3 4 2 5) with arg="a" that is visible from the root
+    const ORDER: [usize; 5] = [1, 3, 4, 2, 5];
+    let mut want: Option<usize> = None;
+    let mut j = 0;
+    while j < 5 { let t = ORDER[j]; if want.is_none() && unsafe { ARG[t] } == 1 && visible(t) { want = Some(t); } j += 1; }
+    cover!(want == Some(4), "argument two levels down reachable");
+    cover!(want.is_none() && unsafe { ARG[3] } == 1, "argument hidden inside another arg / intent reachable");
+    match (found, want) {
+        (None, None) => (),
+        (Some(e), Some(t)) => assert!(e.id as usize == t, "the reference resolves to a different element than the first visible arg"),
+        (Some(_), None) => assert!(false, "a reference resolves to an arg hidden inside another arg or intent (an illegal intent is honoured)"),
+        (None, Some(_)) => assert!(false, "a visible arg is not found"),
+    }
+}
+"""
+
+
+def api_scope(vals=None, out=None):
+    res = mcprobe([("pref", "IntentErrorRecovery Error"),
+                   ("mathml", "<math><mrow intent='pair($a)'><mrow arg='q'><mi arg='a'>x</mi><mi>y</mi></mrow><mo>+</mo><mi>z</mi></mrow></math>"), "speech"])
+    return res[-1][0] == "OK", {"script": "IntentErrorRecovery=Error; intent='pair($a)' whose only arg='a' is inside an element with arg='q'; get_spoken_text must report the error", "results": res[1:]}
+
+
+def arg_lemma(run):
+    src = slicer.Source.get("src/infer_intent.rs")
+    f = src.find("fn find_arg")
+    run.uses(f)
+    crate = kani_run.Crate("c19arg", ARG_SHIM + f.text + ARG_HARNESS)
+    run.bound("K-C19-c", "find_arg verbatim on a 6-node tree 0(1(3 4) 2(5)); every node with no arg / arg=a / arg=b and with or without its own intent (3^6 x 2^5 assignments); reference $a from node 0")
+    run.assume("sxd_document elements reduced to (arg, has-intent, fixed child lists); match_pattern / build_intent return the node they are given; LexState::init succeeds")
+    return crate, dict(id="K-C19-c.find_arg_respects_reference_scopes", harness="find_arg_respects_reference_scopes", api=lambda v, o: api_scope(),
+                       role=lambda v, o: "hidden-arg-resolved" if "hidden inside" in o else ("wrong-arg" if "different element" in o else "visible-arg-missed"),
+                       covers=["argument two levels down reachable", "argument hidden inside another arg / intent reachable"],
+                       claim="find_arg returns exactly the first arg=name in document order that is not inside another arg or intent")
